@@ -90,7 +90,7 @@ def run(replay=None):
         nconc = 6
     else:
         r = C.run_tlc(wd, "Composite", cfg(3, [1, 2, 3, 4], [1, 2, 3], True))
-        nconc = 16
+        nconc = 10
     if r.violated:
         V.notes.append("TLC: Sound violated on the rational model: " + r.cex[:800])
     tlc_wall = r.wall
